@@ -120,9 +120,10 @@ struct OptSpec {
 struct CaseSpec {
   GeomSpec g;
   OptSpec o;
+  uint32_t skip_mask = 0;  // decoder side: attribute types whose transform is skipped (bit = GeometryAttribute::Type)
   template <class A>
   void io(A &a) {
-    a(g); a(o);
+    a(g); a(o); a(skip_mask);
   }
 };
 
@@ -1128,6 +1129,23 @@ inline CaseSpec gen_case(const GenCfg &cfg, std::vector<std::string> *classes) {
       }
       classes->push_back("isolated_points");
     }
+    // exact point counts around the index-width thresholds of the sequential coder (255/256/257, 65535/65536/65537):
+    // padded with isolated points
+    {
+      const int bc = W({cfg.thorough ? 90 : 94, 5, cfg.thorough ? 5 : 1});
+      if (bc > 0 && cfg.allow_large) {
+        const uint32_t target = (bc == 1 ? 256u : 65536u) + static_cast<uint32_t>(R(-1, 1));
+        if (tuples.size() < target) {
+          SplitMix sm(U64());
+          while (tuples.size() < target) {
+            std::vector<uint32_t> tup(na);
+            for (int ai = 0; ai < na; ++ai) tup[ai] = static_cast<uint32_t>(sm.below(nvals[ai]));
+            tuples.push_back(tup);
+          }
+          classes->push_back(bc == 1 ? "points_exactly_255_256_257" : "points_exactly_65535_65536_65537");
+        }
+      }
+    }
     // optional point permutation
     if (!tuples.empty() && tuples.size() <= 300 && P(25)) {
       std::vector<uint32_t> perm(tuples.size());
@@ -1304,7 +1322,31 @@ inline CaseSpec gen_case(const GenCfg &cfg, std::vector<std::string> *classes) {
   o.compress_connectivity = W({65, 10, 25}) - 1;
   o.track = P(cfg.seam_focus ? 100 : 50);
   o.call_submethod = P(20);
+  cs.skip_mask = static_cast<uint32_t>(R(0, 31));
   return cs;
+}
+
+// Appends a GENERIC uint32 attribute holding the point index (identity mapped): gives the correspondence between
+// input and decoded points for the methods that reorder points.
+inline int add_tag_attribute(CaseSpec *cs) {
+  AttSpec t;
+  t.type = GeometryAttribute::GENERIC;
+  t.dtype = draco::DT_UINT32;
+  t.ncomp = 1;
+  t.identity = 1;
+  t.nvalues = cs->g.npoints;
+  uint32_t id = 777000;
+  for (bool clash = true; clash;) {
+    clash = false;
+    for (auto &a : cs->g.atts) clash |= a.unique_id == id;
+    if (clash) ++id;
+  }
+  t.unique_id = id;
+  t.data.resize(static_cast<size_t>(cs->g.npoints) * 4);
+  for (uint32_t p = 0; p < cs->g.npoints; ++p) memcpy(t.data.data() + 4 * p, &p, 4);
+  cs->g.atts.push_back(t);
+  cs->o.per_att.push_back(AttOpt());
+  return static_cast<int>(cs->g.atts.size()) - 1;
 }
 
 // ---------------------------------------------------------------------------------------------
